@@ -56,7 +56,8 @@ CLAIMED = {
          "runs against the real server (virtual socket) under a watchdog; TLC (HostileTrace) checks the contract: finished in "
          "time, well-framed replies only, closed at the end, tag shapes intact, a tag changed only by an acknowledged / intact "
          "write, a following session served correctly.  The datagram service (spec/Udp.tla, model-checked; UdpTrace) gets the same octets as "
-         "datagrams between well-formed ones from several peers: every well-formed datagram is answered as if alone.  "
+         "datagrams between well-formed ones from several peers: every well-formed datagram is answered as if alone.  'Member' plans mutate one member of a "
+         "consistently re-framed bundle; where the specification knows the input holds no write request at all nothing may change.  "
          "Request routing: a second simulator process behind a delaying relay is the target of the first one's port/link route; a hostile session's "
          "routed request with a 10 ms timeout precedes other sessions' routed and local requests, each of which must get its own answer (RouteTrace).",
          "5/C08", "virtual TCP socket and scripted UDP recvfrom (no kernel sockets) except the routing scenarios (loopback TCP, wall-clock delays); byte-level fuzz is sampling; a failing bundle may have executed well-formed member writes",
@@ -89,7 +90,8 @@ CLAIMED = {
          "limit and repeat count on every input of length <= 4 and checks `terminal completion => consumed <= limit'; each instance "
          "is rebuilt from cpppo classes and must agree (limit, sent accounting against a counting iterator, exact repeat "
          "count, success/failure and consumed count); every library parser wrapped in dfa(limit=L) for all L in 0..len+2 "
-         "over spec vectors + sentinels is checked by TLC (AutomataTrace) for LimitRespected and SentAccounting.",
+         "over spec vectors (CPF item lists included) + sentinels is checked by TLC (AutomataTrace) for LimitRespected, SentAccounting and InnerLimits "
+         "(a message delimited by its own length fields never takes the octets that follow it).",
          "5/C10", "whole input available (end of input); a failing run may take one symbol beyond a limit before its final check fails",
          "TLA+ semantics of the automata framework evaluated by TLC; synthetic machines rebuilt from cpppo classes replayed; library-machine runs validated by TLC"),
  "C11": ("model_checking",
@@ -99,8 +101,8 @@ CLAIMED = {
          "sampled splits and must consume, store and accept exactly that (NonTerminal otherwise).  spec/RegexBytes.tla models the "
          "translation into octet machines as coded; TLC emits its outcome too: a run the property rejects is a known finding only if it is "
          "precisely that outcome, and construction refusals must be the predicted ones.",
-         "5/C11", "exhaustive for expressions of size <= 2 (+ cat/alt of atoms; size 3 in thorough) over a 7-symbol alphabet with 2- and "
-         "3-octet symbols, two of them sharing lead octets with named ones, and strings of length <= 3 (4); two known findings on byte machines (F10, F11: both exact)",
+         "5/C11", "expressions of size <= 3 over an 8-symbol alphabet with 2- and "
+         "3-octet symbols, three of them sharing lead octets with named ones; strings of length <= 2 all, length 3 every fourth per expression in the quick tier (all, and length 4, in thorough); two known findings on byte machines (F10, F11: both exact)",
          "TLA+ derivative oracle evaluated by TLC over all small expressions x strings; machines built by cpppo replayed against it"),
  "C20": ("model_checking",
          "spec/Tnet.tla defines Dump and Parse over a value ADT (arbitrary-precision integers, floats as text, bytes, text as code points written in UTF-8 or Latin-1, "
@@ -126,8 +128,9 @@ CLAIMED = {
          "streams (ProcOnlyComplete, OneReplyEach, PartialNoEffect, ClosedStays); TLC-emitted streams (spec-encoded frames) are "
          "delivered to the real enip_srv_tcp over a virtual socket whole, bytewise, per frame, at every two-way split, at every "
          "truncation offset + EOF and in random k-way splits with timeouts; each session's event log is validated by TLC "
-         "(ServerTrace) including final tag memory and a follow-up connection.",
-         "5/C02", "virtual socket (scripted network.recv) around the real receive loop; client-side framing (client.__next__) is covered by C13",
+         "(ServerTrace) including final tag memory and a follow-up connection.  Below that seam the same server runs over a real loopback TCP "
+         "connection (the real network.recv) with streams adding up to the receive buffer size and its neighbours: every reply while the connection is open.",
+         "5/C02", "virtual socket (scripted network.recv) around the real receive loop for the schedules; the real socket part is a handful of sessions with a 3 s wait",
          "TLA+ connection model + TLC exhaustive schedules; real sessions over all splits/truncations validated by TLC trace spec"),
  "C06": ("model_checking",
          "Server.tla reply discipline: TLC explores all interleavings of Recv/Proc/Send for pipelined streams; sessions of 1..4 frames "
